@@ -313,7 +313,7 @@ def _rand_leaf_descs(rng, n, p_rg=0.85):
 
 
 def gen_program(rng, dtype="float64", n_leaves=None, n_nodes=None, n_outputs=None, smooth=False,
-                max_out_scalars=6, leaf_descs=None, vseed=None, linear=False) -> dict:
+                max_out_scalars=6, leaf_descs=None, vseed=None, linear=False, independent_outputs=False) -> dict:
     """A random program for backward(): leaves, nodes, 1..3 outputs requiring grad."""
     fixed_leaves, fixed_seed = leaf_descs, vseed
     for _ in range(50):
@@ -340,6 +340,12 @@ def gen_program(rng, dtype="float64", n_leaves=None, n_nodes=None, n_outputs=Non
         # prefer late values
         w = np.array([1.0 + 2.0 * (i - nl) for i in cands])
         outs = sorted(int(i) for i in rng.choice(cands, size=no, replace=False, p=w / w.sum()))
+        if independent_outputs:  # no output is an ancestor of another one (needed when the outputs become cut points)
+            keep = []
+            for o in outs:
+                if all(o not in g.anc[k] and k not in g.anc[o] for k in keep):
+                    keep.append(o)
+            outs = keep
         rng.shuffle(outs)
         return {"dtype": dtype, "vseed": vseed, "leaves": leaf_descs, "nodes": g.nodes, "outputs": [int(o) for o in outs],
                 "deps": [sorted(d) for d in g.deps]}
